@@ -41,6 +41,8 @@ inductive Var where
 
 inductive BinOp where
   | shl | shr | and | or | add | sub | mul | ne | lt
+  | bxor   -- `^`
+  | eqq    -- `==`
   deriving DecidableEq, Repr
 
 inductive Expr where
@@ -116,6 +118,8 @@ def evalBin (chk : Bool) (op : BinOp) (x y : Val) : R :=
   | .ne, .int t a, .int t' b => if t = t' then .ok (.bool (a != b)) else .error (.stuck "ne types")
   | .lt, .int t a, .int t' b =>
       if t ≠ t' ∨ t.signed then .error (.stuck "lt types") else .ok (.bool (decide (a < b)))
+  | .bxor, .int t a, .int t' b => if t = t' then .ok (.int t (a ^^^ b)) else .error (.stuck "xor types")
+  | .eqq, .int t a, .int t' b => if t = t' then .ok (.bool (a == b)) else .error (.stuck "eq types")
   | _, _, _ => .error (.stuck "binop operands")
 
 /-- `arbitrary_int::UInt::<_, n>::extract_u{W}(value, start)`: `assert!(start + n <= W)`, then shift, cast, mask.
